@@ -389,6 +389,13 @@ func runHistory(ops []string) string {
 			_ = r
 			return "verify-failed"
 		}
+		if what == "remove-then-add" {
+			// over ONE verified connection: the controller removes its own pairing, then adds <other> (the session outlives
+			// the pairing it was verified with)
+			r1 := w.httpOp([]string{"R", "k", ctrl, "remove"})
+			r2 := w.httpOp([]string{"R", "k", other, "add"})
+			return r1 + "/" + strings.TrimPrefix(r2, "R=")
+		}
 		return w.httpOp([]string{"R", "k", other, what})
 	}
 	for _, op := range ops {
@@ -490,6 +497,8 @@ func runHistory(ops []string) string {
 			emit("PSELF=" + strings.TrimPrefix(live(w.t.VerifTxtRecords()["id"], "setup", ""), "S="))
 		case p[0] == "AD":
 			emit("AD=" + strings.TrimPrefix(live(p[1], "add", p[2]), "R="))
+		case p[0] == "RA":
+			emit("RA=" + strings.TrimPrefix(live(p[1], "remove-then-add", p[2]), "R="))
 		case p[0] == "RM":
 			emit("RM=" + strings.TrimPrefix(live(p[1], "remove", p[2]), "R="))
 		case p[0] == "LC":
